@@ -67,6 +67,10 @@ class Effect:
         return "<%s %s:%s %r depth=%d state=%s>" % (self.kind, self.site[0], self.site[1], self.what, self.depth, self.state)
 
 
+SEED_OBJECT_TYPES = {"numpy.random.Generator", "numpy.random.RandomState", "numpy.random.BitGenerator", "numpy.random.SeedSequence",
+                     "numpy.random.MT19937", "numpy.random.PCG64", "numpy.random.PCG64DXSM", "numpy.random.Philox", "numpy.random.SFC64"}
+
+
 class Rng(Interp):
     name = "RNG"
 
@@ -151,7 +155,7 @@ class Rng(Interp):
         return base if isinstance(base, (GenV, SeedV)) else R
 
     def h_unary(self, op, v, n, ctx):
-        if isinstance(op, ast.Not) and isinstance(v, tuple) and v and v[0] in ("isnotnone", "isnone", "not"):
+        if isinstance(op, ast.Not) and isinstance(v, tuple) and v and v[0] in ("isnotnone", "isnone", "not", "seedtype"):
             return ("not", v)
         if isinstance(op, ast.Not) and isinstance(v, SeedV):
             self.truthy_seed_tests.append((ctx.qname, n, ctx.func.module.relpath if ctx.func else "?"))
@@ -209,6 +213,19 @@ class Rng(Interp):
             return env if truth == polarity else None
         if isinstance(tv, tuple) and tv and tv[0] == "not":
             return self.h_assume(tv[1], test, not polarity, env, ctx)
+        if isinstance(tv, tuple) and tv and tv[0] == "seedtype":
+            # isinstance(random_state, T): the documented seeds are integers - Python ints *and* numpy integer scalars (elements of np.arange, of
+            # rng.integers(...)); None in the unseeded mode.  Decided where every documented seed answers alike, left open (both branches) otherwise
+            names = tv[2]
+            if tv[1].mode != "seeded":
+                truth = bool(names & {"NoneType", "types.NoneType"})
+            elif names <= SEED_OBJECT_TYPES:
+                truth = False
+            elif {"int", "numpy.integer"} <= names or names & {"numbers.Integral", "numbers.Real", "numbers.Number", "object"}:
+                truth = True
+            else:
+                return env
+            return env if truth == polarity else None
         return env
 
     def h_store_sub(self, base, idx, val, target, env, ctx, aug=None):
@@ -242,6 +259,14 @@ class Rng(Interp):
     def v_join(self, a, b):
         if self.key(a) == self.key(b):
             return a
+        if isinstance(a, GenV) and isinstance(b, GenV):
+            if self.key(a.seed) == self.key(b.seed):
+                return a                  # two construction sites, one seed
+            # one of two generators, depending on a branch the mode does not decide: a draw from it is a draw from either
+            return GenV(a.site, ("either", a.seed, b.seed))
+        if isinstance(a, GenV) and isinstance(b, SeedV) or isinstance(b, GenV) and isinstance(a, SeedV):
+            g, sd = (a, b) if isinstance(a, GenV) else (b, a)
+            return GenV(g.site, ("either", g.seed, ("passed-in", repr(sd))))
         for v in (a, b):
             if isinstance(v, (GenV,)):
                 return v
@@ -280,6 +305,10 @@ class Rng(Interp):
 
     def h_call_ext(self, d, n, args, kwargs, env, ctx):
         a0 = args[0] if args else kwargs.get("seed")
+        if d == "isinstance" and len(args) == 2 and isinstance(args[0], SeedV) and not kwargs:
+            ts = args[1].items if isinstance(args[1], TupleV) else [args[1]]
+            names = frozenset(getattr(t, "dotted", None) for t in ts)
+            return ("seedtype", args[0], names) if None not in names else R
         if d in api.GENERATOR_CTORS:
             if isinstance(a0, GenV):
                 return a0                 # default_rng(generator) returns that very generator
